@@ -125,6 +125,43 @@ def read_buffer_emitter(src, fname, send_re, impl=None):
     return {"order": order_of(sends[0], [pushes[0][0]]), "buffer": gm.group(1)}, None
 
 
+def depth_at(body, pos):
+    d = 0
+    for ch in body[:pos]:
+        d += (ch == "{") - (ch == "}")
+    return d
+
+
+def read_seq_lock_span(src, fname, impl, lock_re, send_re):
+    """What the emitter's seq mutex covers when SEVERAL producers share one emitter (task: stdout pump, stderr pump,
+    main task).  SpanEmit: the guard is bound by a `let` at the top level of the fn body BEFORE the push and the publish,
+    is never dropped explicitly, so it lives to the end of the fn (choose-seq, record and publish are one critical
+    section).  SpanCounter: the guard is bound inside a nested block (or dropped) before the push."""
+    m = re.search(r"\bimpl\s+" + re.escape(impl) + r"\s*\{", src)
+    if not m:
+        return None, f"impl {impl} not found"
+    sp = fn_span(src, fname, m.start())
+    if not sp:
+        return None, f"fn {fname} not found"
+    body = src[sp[0]:sp[1]]
+    locks = list(re.finditer(r"let\s+(?:mut\s+)?(\w+)\s*=\s*" + lock_re + r"\s*;", body))
+    if len(locks) != 1:
+        return None, f"{fname}: {len(locks)} bindings of the seq mutex guard (expected 1)"
+    g = locks[0]
+    pushes = [x.start() for x in re.finditer(r"\b\w+\.push\(\s*event\.clone\(\)\s*\)\s*;", body)]
+    sends = [x.start() for x in re.finditer(send_re, body)]
+    if len(pushes) != 1 or len(sends) != 1:
+        return None, f"{fname}: cannot relate the seq guard to the push/publish"
+    if g.start() > min(pushes[0], sends[0]):
+        return None, f"{fname}: the seq mutex is taken after the record/publish"
+    # the seq number that goes into the event must be read through this guard (or a value copied from it)
+    if not re.search(r"\*\s*" + g.group(1) + r"\b", body):
+        return None, f"{fname}: the guard `{g.group(1)}` is never dereferenced"
+    dropped = re.search(r"\bdrop\(\s*" + g.group(1) + r"\s*\)", body[:max(pushes[0], sends[0])])
+    top_level = depth_at(body, g.start()) == 0
+    return ("SpanEmit" if top_level and not dropped else "SpanCounter"), None
+
+
 def read_thread_producers(src):
     """every `self.sender.send(X.clone())` of continuities.rs, with the log append and the sidecar append of X"""
     sites = []
@@ -245,6 +282,20 @@ def extract(repo):
         if prod is None:
             ok = False
             notes.append(f"{name} producer: {why}")
+        # the span of the seq mutex where several producers share one emitter
+        span, span_note = "SpanEmit", "one sequential producer (run_session emits in program order)"
+        if name == "task" and psrc is not None:
+            span, why_s = read_seq_lock_span(psrc, "emit", "TaskEmitter", r"self\.seq\.lock\(\)\.await", r"\bself\.sender\s*\.send\(")
+            span_note = "guard of self.seq in TaskEmitter::emit"
+            if span is None:
+                ok = False
+                notes.append(f"task seq mutex: {why_s}")
+                span = "SpanCounter"
+        elif name == "thread":
+            span_note = "next_seq mutex held from choose to publish in every append (C01's obligation)"
+        if prod is not None:
+            prod["span"] = span
+            prod["span_note"] = span_note
         hand, why = (None, "server.rs not found") if server is None else read_handler(server, hfn, snap_re, shared_channel=(name == "thread"))
         if hand is None:
             ok = False
@@ -283,9 +334,11 @@ def generate(repo):
         lag = f"; lagged receiver skipped silently = {hand['lag_swallowed']}" if hand else ""
         if hand and hand.get("own_filter"):
             lag += "; shared channel, frames of other streams dropped by session_id" 
-        L.append(f"(* {name}: producer {po}{detail}; handler {so}, live filter {fl}{lag} *)")
+        spn = f"; seq mutex span: {prod['span']} ({prod['span_note']})" if prod else ""
+        L.append(f"(* {name}: producer {po}{detail}{spn}; handler {so}, live filter {fl}{lag} *)")
         L.append(f"Definition gen_kind_{name} : kind_orders :=")
-        L.append(f"  {{| k_name := {code}; k_p := {po}; k_s := {so}; k_f := {fl}; k_cap := {cap or 0} |}}.")
+        sp = prod["span"] if prod else "SpanCounter"
+        L.append(f"  {{| k_name := {code}; k_p := {po}; k_s := {so}; k_f := {fl}; k_cap := {cap or 0}; k_span := {sp} |}}.")
         names.append(f"gen_kind_{name}")
     L.append("")
     L.append("Definition gen_kinds : list kind_orders := [" + "; ".join(names) + "].")
@@ -359,6 +412,13 @@ def selftest():
     i, _ = read_thread_producers(t_ok)
     j, _ = read_thread_producers(t_bad)
     assert i and i["order"] == "RecThenPub" and j and j["order"] == "PubThenRec", (i, j)
+    emit_whole = "impl TaskEmitter { async fn emit(&self, kind: EventKind) { let mut seq = self.seq.lock().await; let event = Event { seq: *seq, kind }; *seq += 1; let mut guard = self.events.lock().await; guard.push(event.clone()); let _ = self.sender.send(event.clone()); } }"
+    emit_narrow = "impl TaskEmitter { async fn emit(&self, kind: EventKind) { let seq = { let mut next = self.seq.lock().await; let seq = *next; *next += 1; seq }; let event = Event { seq, kind }; let mut guard = self.events.lock().await; guard.push(event.clone()); let _ = self.sender.send(event.clone()); } }"
+    emit_drop = emit_whole.replace("*seq += 1;", "*seq += 1; drop(seq);")
+    args = ("emit", "TaskEmitter", r"self\.seq\.lock\(\)\.await", r"\bself\.sender\s*\.send\(")
+    assert read_seq_lock_span(emit_whole, *args)[0] == "SpanEmit"
+    assert read_seq_lock_span(emit_narrow, *args)[0] == "SpanCounter"
+    assert read_seq_lock_span(emit_drop, *args)[0] == "SpanCounter"
     print("stream_order.py selftest ok")
 
 
@@ -378,7 +438,7 @@ def main():
         with open(out, "w") as f:
             f.write(text)
     for code, name, prod, hand, cap in rows:
-        print(f"stream_order: {name}: producer={prod['order'] if prod else '?'} handler={hand['sorder'] if hand else '?'} "
+        print(f"stream_order: {name}: producer={prod['order'] if prod else '?'} span={prod['span'] if prod else '?'} handler={hand['sorder'] if hand else '?'} "
               f"filter={hand['filter'] if hand else '?'} cap={cap}")
     for n in notes:
         print("stream_order: NOT FOUND:", n)
